@@ -103,3 +103,33 @@ Definition wf (t : rt) : Prop := wfb t = true.
 
 (* the sequence of markup stacks of a rendering, position by position *)
 Definition stacks (f : flat_text) : list (list markup) := map snd f.
+
+(* ------------------------------------------------------------------------------ *)
+(* observers on the character sequence *)
+Definition atoms (f : flat_text) : list atom := map fst f.
+Definition occurs {X} (needle hay : list X) : Prop := exists a b, hay = a ++ needle ++ b.
+Definition prefix_of {X} (p l : list X) : Prop := exists b, l = p ++ b.
+Definition suffix_of {X} (p l : list X) : Prop := exists a, l = a ++ p.
+
+(* the String leaves of a text, and the first / last leaf a prefix / suffix test looks at *)
+Fixpoint leaves (t : rt) : list str :=
+  match t with
+  | RStr s => [s]
+  | RSym _ => []
+  | RText ps | RTag _ ps | RHRef _ _ ps | RProt ps => flat_map leaves ps
+  end.
+Fixpoint first_leaf (t : rt) : option str :=
+  match t with
+  | RStr s => Some s
+  | RSym _ => None
+  | RText ps | RTag _ ps | RHRef _ _ ps | RProt ps =>
+    match ps with [] => None | q :: _ => first_leaf q end
+  end.
+Fixpoint last_leaf (t : rt) : option str :=
+  match t with
+  | RStr s => Some s
+  | RSym _ => None
+  | RText ps | RTag _ ps | RHRef _ _ ps | RProt ps =>
+    (fix go (l : list rt) : option str :=
+       match l with [] => None | [q] => last_leaf q | _ :: r => go r end) ps
+  end.
